@@ -38,6 +38,12 @@ impl BytesMut {
     #[verifier::external_body] pub fn with_capacity(n: usize) -> (r: BytesMut) ensures r@.len() == 0 { unimplemented!() }
     #[verifier::external_body] pub fn len(&self) -> (r: usize) ensures r == self@.len() { unimplemented!() }
     #[verifier::external_body] pub fn capacity(&self) -> (r: usize) { unimplemented!() }
+    // capacity management never changes the contents
+    #[verifier::external_body] pub fn reserve(&mut self, additional: usize) ensures final(self)@ == old(self)@ { unimplemented!() }
+    #[verifier::external_body] pub fn remaining(&self) -> (r: usize) ensures r == self@.len() { unimplemented!() }
+    #[verifier::external_body] pub fn truncate(&mut self, len: usize) ensures final(self)@ == (if len <= old(self)@.len() { old(self)@.subrange(0, len as int) } else { old(self)@ }) { unimplemented!() }
+    #[verifier::external_body] pub fn split_to(&mut self, at: usize) -> (r: BytesMut)
+        requires at <= old(self)@.len() ensures r@ == old(self)@.subrange(0, at as int), final(self)@ == old(self)@.subrange(at as int, old(self)@.len() as int) { unimplemented!() }
     #[verifier::external_body] pub fn clear(&mut self) ensures final(self)@.len() == 0 { unimplemented!() }
     #[verifier::external_body] pub fn split_at(&self, mid: usize) -> (r: (&[u8], &[u8]))
         requires mid <= self@.len() ensures r.0@ == self@.subrange(0, mid as int), r.1@ == self@.subrange(mid as int, self@.len() as int) { unimplemented!() }
